@@ -32,6 +32,7 @@ type Contract struct {
 	Line     int
 	Pkg      string
 	Key      string // Func, Recv.Method
+	FuncKey  string // for a variant unit (funcv): the function it verifies
 	Params   []string
 	Results  []string
 	Ints     string // math | wrap | bv
@@ -379,6 +380,22 @@ func (db *ContractDB) loadFile(fn string) error {
 				return fmt.Errorf("%s:%d: %v", fn, ln+1, err)
 			}
 			cur = &Contract{File: fn, Line: ln + 1, Pkg: pkg, Key: f[0] + "/" + f[1], Params: ps, Results: rs, Ints: "math", Loops: map[int]*LoopSpec{}, Opts: map[string]string{}, LitGen: f[0], LitSel: f[1]}
+			db.All = append(db.All, cur)
+			curLoop = nil
+			continue
+		}
+		if word == "funcv" {
+			// a second contract of the same function, verified as a unit of its own (another integer
+			// mode, another set of options); callers keep using the primary contract
+			vf := strings.SplitN(rest, " ", 2)
+			if len(vf) != 2 {
+				return fmt.Errorf("%s:%d: funcv needs a variant name and a header", fn, ln+1)
+			}
+			key, ps, rs, err := parseHeader(vf[1])
+			if err != nil {
+				return fmt.Errorf("%s:%d: %v", fn, ln+1, err)
+			}
+			cur = &Contract{File: fn, Line: ln + 1, Pkg: pkg, Key: key + "~" + vf[0], FuncKey: key, Params: ps, Results: rs, Ints: "math", Loops: map[int]*LoopSpec{}, Opts: map[string]string{}}
 			db.All = append(db.All, cur)
 			curLoop = nil
 			continue
